@@ -777,6 +777,85 @@ def rule_rangecoder(facts):
         r.ok("evaluation", {"prob update": "p -= p >> 5 (bit 1), p += (0x800 - p) >> 5 (bit 0), all 2047 probabilities"})
     elif True not in seen or False not in seen:
         r.bad("rangeenc|prob-updates", "cannot find both probability updates (found %s)" % sorted(seen), pat.where(e), "unverifiable")
+    # stores to low / range in encode_bit, by evaluation: bit 1 -> low += bound, range -= bound; bit 0 -> range = bound
+    from rules import rcterms
+    wantE = {(1, "low"): lambda R, L, P: L + ((R >> 11) * P), (1, "range"): lambda R, L, P: R - ((R >> 11) * P),
+             (0, "range"): lambda R, L, P: (R >> 11) * P}
+    seenE = set()
+    for blk in e.blocks:
+        if blk.cleanup:
+            continue
+        for i, s_ in enumerate(blk.stmts):
+            if not (s_.k == "assign" and s_.place.proj and s_.place.proj[-1][0] == "field" and s_.place.proj[-1][2] in ("low", "range")):
+                continue
+            fld = s_.place.proj[-1][2]
+            g = [(gb, gt, tr) for (gb, gt, tr) in pat.path_guards(e, c, blk.idx, term_at) if gt[0] == "arg" and gt[2] == "bit"]
+            if not g:
+                r.bad("rangeenc|store-unguarded:%s" % fld, "encode_bit changes %s independently of the bit" % fld, pat.where(e, blk.idx))
+                continue
+            bit = 1 if g[-1][2] else 0
+            t = pt.at(blk.idx, i).of_rvalue(s_.rv, blk.idx)
+            fnw = wantE.get((bit, fld))
+            if fnw is None:
+                r.bad("rangeenc|store:%s:%d" % (fld, bit), "encode_bit changes %s for bit %d" % (fld, bit), pat.where(e, blk.idx))
+                continue
+            bad = None
+            try:
+                for R in (1 << 24, 0xFFFFFFFF, 0x12345678, 0x01000001):
+                    for L in (0, 0xFEDCBA98, 0xFFFFFFFF, 0x1_0000_0000):
+                        for P in (1, 0x400, 0x7E1):
+                            got = pat.eval_term(t, leaf(R, P, L))
+                            if got != fnw(R, L, P):
+                                bad = (R, L, P, got, fnw(R, L, P))
+            except pat.Overflow:
+                bad = ("overflow",)
+            except pat.NotEvaluable:
+                bad = ("not evaluable",)
+            if bad:
+                r.bad("rangeenc|store:%s:%d" % (fld, bit), "for bit %d the new %s is wrong: %s" % (bit, fld, bad), pat.where(e, blk.idx))
+            else:
+                seenE.add((bit, fld))
+    if seenE == set(wantE):
+        r.ok("evaluation", {"encode_bit": "bit 1: low += bound, range -= bound; bit 0: range = bound"})
+    elif not any("store" in f_.key for f_ in r.findings):
+        r.bad("rangeenc|stores", "encode_bit no longer updates %s" % sorted(set(wantE) - seenE), pat.where(e))
+    # encode_literal: MSB-first bits, tree index recurrence
+    el = pat.body_of(facts, "Encoder::encode_literal")
+    if el is not None:
+        ptl = PosTerms(el)
+        okb = oku = False
+        for blk in el.blocks:
+            if blk.cleanup:
+                continue
+            for i, s_ in enumerate(blk.stmts):
+                if s_.k != "assign" or s_.rv.k not in ("binop", "cast"):
+                    continue
+                t = ptl.at(blk.idx, i).of_rvalue(s_.rv, blk.idx)
+
+                def lf(byte, i_, acc):
+                    def f(q):
+                        if q[0] == "arg" and q[2] == "byte":
+                            return byte
+                        if q[0] == "field" and pat.has_call(q, "::next"):
+                            return i_
+                        if q[0] == "phi":
+                            return acc
+                        raise pat.NotEvaluable(q)
+                    return f
+                try:
+                    if t[0] == "Ne" and pat.has_arg(t, "byte") and all(pat.eval_term(t, lf(by, i_, 1)) == ((by >> (7 - i_)) & 1)
+                                                                       for by in (0, 0x80, 0x55, 0xAA, 0xFF, 0x01) for i_ in range(8)):
+                        okb = True
+                    if t[0] in ("BitXor", "BitOr", "Add") and pat.has_arg(t, "byte") and \
+                            all(pat.eval_term(t, lf(by, 0, acc)) == ((acc << 1) ^ ((by >> 7) & 1)) for by in (0, 0x80) for acc in (1, 2, 0x7F)):
+                        oku = True
+                except (pat.NotEvaluable, pat.Overflow):
+                    pass
+        if okb and oku:
+            r.ok("evaluation", {"encode_literal": "bit i = (byte >> (7 - i)) & 1; node = (node << 1) ^ bit"})
+        else:
+            r.bad("rangeenc|literal-bits", "encode_literal does not emit the byte MSB first through the tree recurrence (bits ok: %s, recurrence ok: %s)" % (okb, oku),
+                  pat.where(el))
     # normalize threshold and shift
     gsn, tn = pat.guards(n)
     th = [t for (_, t, _, _) in gsn if pat.has_field(t, "range")]
